@@ -621,6 +621,85 @@ func runC06(c *mon.Ctx) {
 		k.Sample(map[string]any{"primary": kind.String(), "alphabet": n, "lookups": len(list.LL), "judged": st.judged, "undefined": st.undefined})
 	})
 
+	// Class-based chaining context as files may store it: backtrack and lookahead
+	// sequences classified by ONE class definition table (both offsets of the
+	// subtable point at the same bytes) while the input sequence has its own.
+	// The library's encoder never shares the tables, so the bytes are the
+	// library's own with the lookahead offset re-pointed; the reference applies
+	// the in-memory structure (Lookahead = Backtrack by content).
+	c.Stratum("shared-classdefs", c.N(400, 8000), func(k *mon.Case) {
+		r := k.Rng
+		alpha := otlmini.Random(r, []int{6, 10, 20, 40}[r.IntN(4)], 400)
+		g := &otlmini.Gen{R: r, A: alpha, WildFlags: true, MaxSeq: 2 + r.IntN(3), MaxNested: 1 + r.IntN(3)}
+		kind := shaper.Gsub6_2
+		if k.Index%2 == 1 {
+			kind = shaper.Gpos8_2
+		}
+		fs := otlmini.FlagSet(r.IntN(int(otlmini.NumFlagSets)))
+		list := g.GenList(kind, fs, 1+r.IntN(2), 1, false)
+		shared := 0
+		for _, l := range list.LL {
+			for _, sub := range l.Subtables {
+				if s, ok := sub.(*gtab.ChainedSeqContext2); ok {
+					s.Lookahead = s.Backtrack
+					shared++
+				}
+			}
+		}
+		desc := c06describe(list.LL, list.Lookups, alpha.Gdef)
+		k.Input([]byte(desc))
+		st := &c06stats{undefined: map[string]int{}}
+		patched := 0
+		mon.Try(func() {
+			info := &gtab.Info{ScriptList: gtab.ScriptListInfo{}, FeatureList: gtab.FeatureListInfo{}, LookupList: list.LL}
+			tp, ext, chain := gtab.Type(gtab.TypeGsub), 7, 6
+			if list.Gpos {
+				tp, ext, chain = gtab.Type(gtab.TypeGpos), 9, 8
+			}
+			enc := info.Encode()
+			u16 := func(o int) int { return int(enc[o])<<8 | int(enc[o+1]) }
+			lo := u16(8)
+			for i, cnt := 0, u16(lo); i < cnt; i++ {
+				loff := lo + u16(lo+2+2*i)
+				typ := u16(loff)
+				for j, ns := 0, u16(loff+4); j < ns; j++ {
+					so, t := loff+u16(loff+6+2*j), typ
+					if t == ext && u16(so) == 1 {
+						t = u16(so + 2)
+						so += u16(so+4)<<16 | u16(so+6)
+					}
+					if t == chain && u16(so) == 2 && u16(so+4) != 0 && u16(so+8) != 0 {
+						enc[so+8], enc[so+9] = enc[so+4], enc[so+5]
+						patched++
+					}
+				}
+			}
+			back, err := gtab.Read(bytes.NewReader(enc), tp)
+			if err != nil {
+				k.Fail("mismatch", "shared-classdefs:read-error", "gtab.Read rejects a class-based chaining context whose backtrack and lookahead offsets name one class definition table: %v", err)
+				return
+			}
+			if len(back.LookupList) == len(list.LL) {
+				st.libLL = back.LookupList
+			}
+		})
+		if st.libLL == nil || patched == 0 || patched != shared {
+			k.Skip("no shared class definition table in this list")
+			return
+		}
+		k.Class("shared-classdefs:lookahead-and-backtrack-one-table")
+		all := alpha.All()
+		for j := 0; j < 12; j++ {
+			gids := c06randomSeq(r, alpha, all)
+			if !c06check(k, st, alpha, list, gids, &desc) {
+				break
+			}
+			k.Distinct(desc, gids)
+		}
+		st.flagsSeen = c06flagNames(list)
+		st.flush(k, "shared-classdefs:")
+	})
+
 	// coverage targets the generators are built to reach with a wide margin
 	for _, kind := range c06allKinds {
 		c.Require("match>=1000:"+kind.String(), "list-majority-judged:"+kind.String())
@@ -628,7 +707,7 @@ func runC06(c *mon.Ctx) {
 	for fs := otlmini.FlagSet(0); fs < otlmini.NumFlagSets; fs++ {
 		c.Require("flags:" + fs.String())
 	}
-	c.Require("random:lookups-read-back", "skipped-glyphs-inside-match", "ligature-later-candidate-across-2-skipped",
+	c.Require("random:lookups-read-back", "shared-classdefs:lookahead-and-backtrack-one-table", "skipped-glyphs-inside-match", "ligature-later-candidate-across-2-skipped",
 		"calib:gsub-section1-reproduced", "calib:gsub-section2-reproduced", "calib:gsub-section3-reproduced",
 		"calib:gsub-section5-reproduced", "calib:gpos-reproduced", "calib:flags-reproduced",
 		"nested-depth:1", "nested-depth:2",
